@@ -1,6 +1,21 @@
 //! C04 — add / sub / neg
 use crate::util::*;
-use crypto_bigint::{CheckedAdd, CheckedSub, Uint};
+use crypto_bigint::subtle::CtOption;
+use crypto_bigint::{BoxedUint, Checked, CheckedAdd, CheckedSub, Limb, Uint, Wrapping, WrappingAdd, WrappingNeg, WrappingSub};
+
+fn agree(vals: &[String]) -> String {
+    if vals.iter().all(|v| *v == vals[0]) { vals[0].clone() } else { format!("routes-differ:{}", vals.join("|")) }
+}
+fn optu<const N: usize>(o: CtOption<Uint<N>>) -> String {
+    Option::<Uint<N>>::from(o).map(|v| uhex(&v)).unwrap_or("none".into())
+}
+fn optb(o: CtOption<BoxedUint>) -> String {
+    Option::<BoxedUint>::from(o).map(|v| bhexlen(&v)).unwrap_or("none".into())
+}
+fn optl(o: CtOption<Limb>) -> String {
+    Option::<Limb>::from(o).map(lhex).unwrap_or("none".into())
+}
+
 
 fn fixed<const N: usize>(op: &str, a: &[&str]) -> Option<String> {
     Some(match (op, a) {
@@ -26,6 +41,64 @@ fn fixed<const N: usize>(op: &str, a: &[&str]) -> Option<String> {
             let r: Option<Uint<N>> = arg!(uint::<N>(x)).checked_sub(&arg!(uint::<N>(y))).into();
             r.map(|v| uhex(&v)).unwrap_or("none".into())
         }
+        ("c04.u.neg", [x, c]) => {
+            let (x, c) = (arg!(uint::<N>(x)), arg!(toconst(c)));
+            let (v, carry) = x.carrying_neg();
+            let wn = agree(&[uhex(&x.wrapping_neg()), uhex(&WrappingNeg::wrapping_neg(&x)), uhex(&(-Wrapping(x)).0)]);
+            format!("{} {} {wn} {}", uhex(&v), cchoice(carry), uhex(&x.wrapping_neg_if(c)))
+        }
+        ("c04.u.op_add", [x, y]) => {
+            let (x, y) = (arg!(uint::<N>(x)), arg!(uint::<N>(y)));
+            // every operator form must behave alike; each runs under its own catch_unwind
+            let forms: Vec<String> = vec![
+                std::panic::catch_unwind(|| uhex(&(x + y))).unwrap_or("panic".into()),
+                std::panic::catch_unwind(|| uhex(&(x + &y))).unwrap_or("panic".into()),
+                std::panic::catch_unwind(|| { let mut t = x; t += y; uhex(&t) }).unwrap_or("panic".into()),
+                std::panic::catch_unwind(|| { let mut t = x; t += &y; uhex(&t) }).unwrap_or("panic".into()),
+            ];
+            agree(&forms)
+        }
+        ("c04.u.op_sub", [x, y]) => {
+            let (x, y) = (arg!(uint::<N>(x)), arg!(uint::<N>(y)));
+            let forms: Vec<String> = vec![
+                std::panic::catch_unwind(|| uhex(&(x - y))).unwrap_or("panic".into()),
+                std::panic::catch_unwind(|| uhex(&(x - &y))).unwrap_or("panic".into()),
+                std::panic::catch_unwind(|| { let mut t = x; t -= y; uhex(&t) }).unwrap_or("panic".into()),
+                std::panic::catch_unwind(|| { let mut t = x; t -= &y; uhex(&t) }).unwrap_or("panic".into()),
+            ];
+            agree(&forms)
+        }
+        ("c04.u.wrapping_chain", [x, y, z]) => {
+            let (x, y, z) = (Wrapping(arg!(uint::<N>(x))), Wrapping(arg!(uint::<N>(y))), Wrapping(arg!(uint::<N>(z))));
+            let r1 = (x + y) - z;
+            let r2 = (x + &y) - &z;
+            let mut r3 = x;
+            r3 += y;
+            r3 -= z;
+            let mut r4 = x;
+            r4 += &y;
+            r4 -= &z;
+            let r5 = WrappingSub::wrapping_sub(&WrappingAdd::wrapping_add(&x.0, &y.0), &z.0);
+            format!("{} {}", agree(&[uhex(&r1.0), uhex(&r2.0), uhex(&r3.0), uhex(&r4.0), uhex(&r5)]), uhex(&(-x).0))
+        }
+        ("c04.u.checked_chain", [x, y, z]) => {
+            let (x, y, z) = (Checked::new(arg!(uint::<N>(x))), Checked::new(arg!(uint::<N>(y))), Checked::new(arg!(uint::<N>(z))));
+            let r1 = x + y;
+            let r2 = r1 - z;
+            let r3 = r2 + z;
+            let mut a1 = x;
+            a1 += y;
+            let mut a2 = a1;
+            a2 -= &z;
+            let mut a3 = a2;
+            a3 += &z;
+            format!(
+                "{} {} {}",
+                agree(&[optu(r1.0), optu(a1.0), optu((x + &y).0)]),
+                agree(&[optu(r2.0), optu(a2.0)]),
+                agree(&[optu(r3.0), optu(a3.0)])
+            )
+        }
         _ => return None,
     })
 }
@@ -44,6 +117,96 @@ pub fn dispatch(op: &str, a: &[&str]) -> Option<String> {
             let (r, c) = arg!(limb(x)).mac(arg!(limb(y)), arg!(limb(z)), arg!(limb(c)));
             Some(format!("{} {}", lhex(r), lhex(c)))
         }
+        ("c04.l.forms", [x, y]) => {
+            let (x, y) = (arg!(limb(x)), arg!(limb(y)));
+            let wa = agree(&[lhex(x.wrapping_add(y)), lhex(WrappingAdd::wrapping_add(&x, &y)), lhex((Wrapping(x) + Wrapping(y)).0), lhex(x.adc(y, Limb::ZERO).0), lhex(x.overflowing_add(y).0)]);
+            let ws = agree(&[lhex(x.wrapping_sub(y)), lhex(WrappingSub::wrapping_sub(&x, &y)), lhex((Wrapping(x) - Wrapping(y)).0), lhex(x.sbb(y, Limb::ZERO).0)]);
+            let ca = agree(&[optl(x.checked_add(&y)), optl((Checked::new(x) + Checked::new(y)).0)]);
+            let cs = agree(&[optl(x.checked_sub(&y)), optl((Checked::new(x) - Checked::new(y)).0)]);
+            Some(format!("{wa} {ws} {} {} {ca} {cs} {}", lhex(x.saturating_add(y)), lhex(x.saturating_sub(y)), lhex(x.wrapping_neg())))
+        }
+        ("c04.l.op_add", [x, y]) => {
+            let (x, y) = (arg!(limb(x)), arg!(limb(y)));
+            Some(lhex(x + y))
+        }
+        ("c04.l.op_sub", [x, y]) => {
+            let (x, y) = (arg!(limb(x)), arg!(limb(y)));
+            let forms: Vec<String> = vec![
+                std::panic::catch_unwind(|| lhex(x - y)).unwrap_or("panic".into()),
+                std::panic::catch_unwind(|| lhex(x - &y)).unwrap_or("panic".into()),
+            ];
+            Some(agree(&forms))
+        }
+        ("c04.b.adc", [na, x, nb, y, c]) => {
+            let (x, y, c) = (arg!(boxed(x, arg!(dec(na)))), arg!(boxed(y, arg!(dec(nb)))), arg!(limb(c)));
+            let (r, c) = x.adc(&y, c);
+            Some(format!("{} {}", bhexlen(&r), lhex(c)))
+        }
+        ("c04.b.sbb", [na, x, nb, y, c]) => {
+            let (x, y, c) = (arg!(boxed(x, arg!(dec(na)))), arg!(boxed(y, arg!(dec(nb)))), arg!(limb(c)));
+            let (r, c) = x.sbb(&y, c);
+            Some(format!("{} {}", bhexlen(&r), lhex(c)))
+        }
+        ("c04.b.forms", [na, x, nb, y]) => {
+            let (x, y) = (arg!(boxed(x, arg!(dec(na)))), arg!(boxed(y, arg!(dec(nb)))));
+            let wa = agree(&[bhexlen(&x.wrapping_add(&y)), bhexlen(&WrappingAdd::wrapping_add(&x, &y)), bhexlen(&(Wrapping(x.clone()) + Wrapping(y.clone())).0)]);
+            let ws = agree(&[bhexlen(&x.wrapping_sub(&y)), bhexlen(&WrappingSub::wrapping_sub(&x, &y)), bhexlen(&(Wrapping(x.clone()) - Wrapping(y.clone())).0)]);
+            let wn = agree(&[bhexlen(&x.wrapping_neg()), bhexlen(&WrappingNeg::wrapping_neg(&x))]);
+            Some(format!("{wa} {ws} {} {} {wn}", optb(x.checked_add(&y)), optb(x.checked_sub(&y))))
+        }
+        ("c04.b.op_add", [na, x, nb, y]) => {
+            let (x, y) = (arg!(boxed(x, arg!(dec(na)))), arg!(boxed(y, arg!(dec(nb)))));
+            let forms: Vec<String> = vec![
+                std::panic::catch_unwind(|| bhexlen(&(&x + &y))).unwrap_or("panic".into()),
+                std::panic::catch_unwind(|| bhexlen(&(x.clone() + y.clone()))).unwrap_or("panic".into()),
+                std::panic::catch_unwind(|| bhexlen(&(x.clone() + &y))).unwrap_or("panic".into()),
+                std::panic::catch_unwind(|| bhexlen(&(&x + y.clone()))).unwrap_or("panic".into()),
+            ];
+            Some(agree(&forms))
+        }
+        ("c04.b.op_sub", [na, x, nb, y]) => {
+            let (x, y) = (arg!(boxed(x, arg!(dec(na)))), arg!(boxed(y, arg!(dec(nb)))));
+            let forms: Vec<String> = vec![
+                std::panic::catch_unwind(|| bhexlen(&(&x - &y))).unwrap_or("panic".into()),
+                std::panic::catch_unwind(|| bhexlen(&(x.clone() - y.clone()))).unwrap_or("panic".into()),
+                std::panic::catch_unwind(|| bhexlen(&(x.clone() - &y))).unwrap_or("panic".into()),
+                std::panic::catch_unwind(|| bhexlen(&(&x - y.clone()))).unwrap_or("panic".into()),
+            ];
+            Some(agree(&forms))
+        }
+        ("c04.b.add_assign", [na, x, nb, y]) => {
+            let (x, y) = (arg!(boxed(x, arg!(dec(na)))), arg!(boxed(y, arg!(dec(nb)))));
+            let mut forms: Vec<String> = vec![
+                std::panic::catch_unwind(|| { let mut t = x.clone(); t += &y; bhexlen(&t) }).unwrap_or("panic".into()),
+                std::panic::catch_unwind(|| { let mut t = x.clone(); t += y.clone(); bhexlen(&t) }).unwrap_or("panic".into()),
+            ];
+            // the same through a fixed-width right-hand side and through primitives, where the value fits
+            forms.push(with_rhs_uint(&x, &y, true));
+            if let Some(p) = prim_forms(&x, &y, true) { forms.push(p); }
+            Some(agree(&forms))
+        }
+        ("c04.b.sub_assign", [na, x, nb, y]) => {
+            let (x, y) = (arg!(boxed(x, arg!(dec(na)))), arg!(boxed(y, arg!(dec(nb)))));
+            let mut forms: Vec<String> = vec![
+                std::panic::catch_unwind(|| { let mut t = x.clone(); t -= &y; bhexlen(&t) }).unwrap_or("panic".into()),
+                std::panic::catch_unwind(|| { let mut t = x.clone(); t -= y.clone(); bhexlen(&t) }).unwrap_or("panic".into()),
+            ];
+            forms.push(with_rhs_uint(&x, &y, false));
+            if let Some(p) = prim_forms(&x, &y, false) { forms.push(p); }
+            Some(agree(&forms))
+        }
+        ("c04.b.wrapping_assign", [na, x, nb, y]) => {
+            let (x, y) = (arg!(boxed(x, arg!(dec(na)))), arg!(boxed(y, arg!(dec(nb)))));
+            let mut a = Wrapping(x.clone());
+            a += Wrapping(y.clone());
+            let mut a2 = Wrapping(x.clone());
+            a2 += &Wrapping(y.clone());
+            let mut s = Wrapping(x.clone());
+            s -= Wrapping(y.clone());
+            let mut s2 = Wrapping(x.clone());
+            s2 -= &Wrapping(y.clone());
+            Some(format!("{} {}", agree(&[bhexlen(&a.0), bhexlen(&a2.0)]), agree(&[bhexlen(&s.0), bhexlen(&s2.0)])))
+        }
         _ if op.starts_with("c04.u.") && !a.is_empty() => {
             let n = arg!(dec(a[0]));
             let rest = &a[1..];
@@ -51,4 +214,50 @@ pub fn dispatch(op: &str, a: &[&str]) -> Option<String> {
         }
         _ => None,
     }
+}
+
+/// `boxed (+|-)= Uint<N>` and `boxed (+|-) Uint<N>` with N = the right-hand side's limb count
+fn with_rhs_uint(x: &BoxedUint, y: &BoxedUint, add: bool) -> String {
+    fn go<const N: usize>(x: &BoxedUint, y: &BoxedUint, add: bool) -> Option<String> {
+        let mut w = [0u64; N];
+        w.copy_from_slice(y.as_words());
+        let u = Uint::<N>::from_words(w);
+        let f: Vec<String> = vec![
+            std::panic::catch_unwind(|| { let mut t = x.clone(); if add { t += &u } else { t -= &u }; bhexlen(&t) }).unwrap_or("panic".into()),
+            std::panic::catch_unwind(|| { let mut t = x.clone(); if add { t += u } else { t -= u }; bhexlen(&t) }).unwrap_or("panic".into()),
+            std::panic::catch_unwind(|| bhexlen(&if add { x.clone() + &u } else { x.clone() - &u })).unwrap_or("panic".into()),
+            std::panic::catch_unwind(|| bhexlen(&if add { x + u } else { x - u })).unwrap_or("panic".into()),
+            std::panic::catch_unwind(|| bhexlen(&if add { x + &u } else { x - &u })).unwrap_or("panic".into()),
+        ];
+        Some(agree(&f))
+    }
+    let n = y.as_words().len();
+    let r: Option<String> = with_n!(n, go, x, y, add);
+    // widths outside the table: fall back to the boxed form's answer (no extra information)
+    match r.as_deref() {
+        Some("unsupported-width") | None => std::panic::catch_unwind(|| { let mut t = x.clone(); if add { t += y } else { t -= y }; bhexlen(&t) }).unwrap_or("panic".into()),
+        Some(s) => s.to_string(),
+    }
+}
+
+/// `boxed (+|-) primitive` for every primitive type that can hold the right-hand value
+fn prim_forms(x: &BoxedUint, y: &BoxedUint, add: bool) -> Option<String> {
+    let w = y.as_words();
+    // only where the boxed form is inside its documented precondition (rhs not wider than the receiver)
+    if w.len() > x.as_words().len() || w.iter().skip(2).any(|v| *v != 0) { return None; }
+    let v: u128 = (w[0] as u128) | ((*w.get(1).unwrap_or(&0) as u128) << 64);
+    let mut f: Vec<String> = Vec::new();
+    macro_rules! p {
+        ($t:ty) => {
+            if v <= <$t>::MAX as u128 {
+                let r = v as $t;
+                f.push(std::panic::catch_unwind(|| bhexlen(&if add { x.clone() + r } else { x.clone() - r })).unwrap_or("panic".into()));
+                f.push(std::panic::catch_unwind(|| bhexlen(&if add { x + r } else { x - r })).unwrap_or("panic".into()));
+                f.push(std::panic::catch_unwind(|| { let mut t = x.clone(); if add { t += r } else { t -= r }; bhexlen(&t) }).unwrap_or("panic".into()));
+            }
+        };
+    }
+    p!(u8); p!(u16); p!(u32); p!(u64);
+    if x.as_words().len() >= 2 { p!(u128); }
+    if f.is_empty() { None } else { Some(agree(&f)) }
 }
